@@ -563,3 +563,23 @@ pub fn c34_sum<'a>(r: Stream<u32, P<'a>>, w: Stream<u32, P<'a>>) {
     };
     out.embedded_output("read");
 }
+
+/// slice forms inside the region: the writes are read with `use::atomic` on the atomic STREAM
+/// (batch_atomic), transformed in the slice and handed back with `yield_atomic`; the state is
+/// folded from the yielded stream, acknowledgements are released after it, reads as in c34_sum
+pub fn c34_yield_atomic<'a>(r: Stream<u32, P<'a>>, w: Stream<u32, P<'a>>) {
+    use hydro_lang::live_collections::sliced::yield_atomic;
+    let aw = w.atomic();
+    let processed = sliced! {
+        let b = use::atomic(aw, nondet!(/** the region's own tick */));
+        yield_atomic(b.map(q!(|x| x * 2)))
+    };
+    let total = processed.clone().fold(q!(|| 0u32), q!(|acc, x| *acc += x));
+    processed.end_atomic().embedded_output("ack");
+    let out = sliced! {
+        let rb = use::batch(r, nondet!(/** batch boundaries are not observed */));
+        let snap = use::atomic(total, nondet!(/** atomic snapshot */));
+        rb.cross_singleton(snap)
+    };
+    out.embedded_output("read");
+}
